@@ -121,10 +121,24 @@ static const char * objname(const char * what, char * buf, size_t n)
     return buf;
 }
 
+/* order of the next atomic operation (set by the _explicit forms of the shadow header) */
+static memory_order next_order = memory_order_seq_cst;
+
+void conc_order(memory_order mo)
+{
+    next_order = mo;
+}
+
 static void performed_on(const char * opn, const char * what, size_t val)
 {
+    static const char * const names[] = { "relaxed", "consume", "acquire", "release", "acq_rel", "seq_cst" };
     char b[64], l[96];
-    snprintf(l, sizeof(l), "%s %s", opn, objname(what, b, sizeof(b)));
+    if (next_order != memory_order_seq_cst) {
+        snprintf(l, sizeof(l), "%s[%s] %s", opn, names[next_order], objname(what, b, sizeof(b)));
+    } else {
+        snprintf(l, sizeof(l), "%s %s", opn, objname(what, b, sizeof(b)));
+    }
+    next_order = memory_order_seq_cst;
     performed(l, val);
 }
 
